@@ -155,6 +155,11 @@ SHAPES = ["chain", "cycle", "two_cycles", "back", "self", "random", "random"]
 def keyed_edges(rng, ar, n):
     """edges of t's arity: for the ternary form 1-3 keys with a graph each"""
     if ar == 2: return rng.shuffle(graph(rng, rng.choice(SHAPES), n))
+    if rng.chance(1, 4):
+        # MANY keys sharing ONE edge: few distinct elements per column against many keys (an `is_empty` answered from a sampled / estimated
+        # size of the [1,2] view would call the view empty; seeded change C12_r3_ternary_view12_is_empty_estimate)
+        a, b = rng.below(n), rng.below(n)
+        return rng.shuffle([(k, a, b) for k in range(rng.range(4, 9))])
     out = []
     for k in rng.shuffle([0, 1, 2])[:rng.range(1, 3)]:
         out += [(k, a, b) for a, b in graph(rng, rng.choice(SHAPES), rng.range(2, n))]
